@@ -250,7 +250,7 @@ class Runner:
                     % (unit, json.dumps(w["inputs"])[:300], json.dumps(r["obs_sym"])[:300], json.dumps(r["obs"])[:300])
                 )
             for label, detail in r["failed"]:
-                if label.startswith("witness:"):
+                if label.startswith("witness:") or (w.get("partial") and not label.startswith(("oracle:", "harness-exception:"))):
                     # witness-level assertion (C code in the way: json text, isoformat, ...): a failure is a concrete violation on the real code
                     v = {"label": label, "detail": detail, "inputs": w["inputs"]}
                     key = (unit, label)
